@@ -1,4 +1,5 @@
 CONSTANTS
+  CommitOrder = "publish_first"
   NanoMax = 3
   Secs = {0, 1}
   Nanos = {0, 1, 2}
